@@ -16,3 +16,10 @@ var propertyPlans = map[string]*PropertyPlan{
 		Assumptions: []string{"uint is 64 bits wide"},
 	},
 }
+
+func init() {
+	propertyPlans["C09"] = &PropertyPlan{ID: "C09",
+		NotDecided:  []string{},
+		Assumptions: []string{"float64 ordinates and the conversion x*1e10 -> int64 are modelled over the reals (exact); ordinates within +-8e8 units"},
+	}
+}
